@@ -338,7 +338,25 @@ func (g *Gen) EditVPN(v *GVPN) string {
 	if v == nil {
 		return ""
 	}
-	switch g.Rng.Intn(19) {
+	switch g.Rng.Intn(20) {
+	case 19: // device has no webvpn section at all; the command sent just before it is a sub-command of another mode
+		any := false
+		for _, r := range v.RA {
+			any = any || (r.WebVPN && r.UseTG == "")
+		}
+		if any {
+			for _, r := range v.RA {
+				r.WebVPN = false
+			}
+			if len(v.Users) > 0 && g.Rng.Intn(3) != 0 {
+				u := v.Users[g.Rng.Intn(len(v.Users))]
+				u.Attrs[0] = "vpn-framed-ip-address 10.3.9.98 255.255.255.0"
+				return "webvpn-section-missing+user-attr"
+			}
+			r := v.RA[g.Rng.Intn(len(v.RA))]
+			r.GPAttrs[len(r.GPAttrs)-1] = "vpn-idle-timeout 998"
+			return "webvpn-section-missing+group-policy-attr"
+		}
 	case 18: // two certificate maps share one tunnel-group on device; the target has one each
 		if len(v.RA) > 1 && v.RA[0].UseTG == "" && v.RA[1].UseTG == "" {
 			r1, r2 := v.RA[0], v.RA[1]
